@@ -130,6 +130,10 @@ type FuncInfo struct {
 	Kind  FuncKind
 	Spec  *Spec
 	Model *ast.FuncDecl // for KModel
+	// Opaque: spec functions kept uninterpreted while THIS function is verified (//kvc:opaque <FuncKey> <spec>...):
+	// an application becomes an uninterpreted function of its arguments and of the heap arrays the spec function
+	// reads, so facts about it are carried by congruence instead of being re-derived through its definition.
+	Opaque map[string]bool
 	// Models: one trusted model per spec package; a caller uses the model of its own package when there is one
 	Models map[string]modelDef
 	MPkg   *packages.Package
@@ -290,6 +294,23 @@ func (p *Program) parseContractFile(pk *packages.Package, f *ast.File) {
 						fi.Spec.Trusted = true
 						p.trust(pk, "contract of "+fi.Key+" (no body in repo, assumed)")
 					}
+				}
+			case "opaque":
+				parts := strings.Fields(rest)
+				if len(parts) < 2 {
+					p.problem("%s: //kvc:opaque <FuncKey> <spec function>...", p.Fset.Position(c.Pos()))
+					continue
+				}
+				fi := p.resolveFunc(pk, parts[0])
+				if fi == nil {
+					p.problem("%s: cannot resolve function %q", p.Fset.Position(c.Pos()), parts[0])
+					continue
+				}
+				if fi.Opaque == nil {
+					fi.Opaque = map[string]bool{}
+				}
+				for _, n := range parts[1:] {
+					fi.Opaque[n] = true
 				}
 			case "final":
 				for _, spec := range strings.Fields(rest) {
